@@ -10,7 +10,7 @@ from ..runner import drive
 RULE = ("Base cases (kundur_full, ieee14_full, wscc9, pjm5bus with their own events) x generated schedules of 1..6 "
         "events over Toggle (Line, PQ), Fault apply/clear and Alter (+,-,*,/,=), enabled or disabled, with times drawn "
         "from labelled classes (on the step grid, off grid, t0, tf, beyond tf, negative/disabled, > 10 s, exactly "
-        "coincident pairs, pairs closer than 2e-4 s, equal to a segment boundary) x tstep x fixed/variable step x a "
+        "coincident pairs, pairs closer than 2e-4 s, equal to a segment boundary) x tstep x fixed/variable step x TDS options refresh_event and check_conn x a "
         "drawn split of [t0, tf] into 1..3 resumed segments. Observation: wrapped TimerParam callbacks, a wrapper of "
         "dae.store sampling the targeted fields at every stored step. Oracle: a pure-Python schedule model: one firing "
         "per enabled in-range event at dae.t == t_e (bitwise), none for disabled / out-of-range ones, the target changes "
@@ -86,7 +86,9 @@ def schedules(draw):
             elif pair == 'reclose':
                 e2['t'] = float(round(t + draw(st.sampled_from([0.02, 0.05, 0.1])), 4))
             events.append(e2)
-    return dict(base=base, tstep=tstep, fixt=fixt, tf=tf, bounds=bounds, events=events)
+    # documented TDS options that touch event handling: refresh the event table at every step, no connectivity re-check
+    opts = dict(refresh_event=draw(st.sampled_from([0, 0, 1])), check_conn=draw(st.sampled_from([1, 1, 0])))
+    return dict(base=base, tstep=tstep, fixt=fixt, tf=tf, bounds=bounds, events=events, opts=opts)
 
 
 def materialise(ss, c):
@@ -156,6 +158,9 @@ def apply_method(v, method, amount):
 def run_schedule(ctx, c):
     path = os.path.join(build.cases_root(), c['base'])
     rc = {'PFlow': dict(report=0), 'TDS': dict(no_tqdm=1, tf=c['bounds'][0], tstep=c['tstep'], fixt=c['fixt'], criteria=0)}
+    rc['TDS'].update(c.get('opts') or {})
+    for k, v in (c.get('opts') or {}).items():
+        ctx.count('opt:%s=%s' % (k, v))
     ss = build.load_case(path, rc=rc, setup=False)
     recs = materialise(ss, c)
     # the case's own timed events are part of the schedule
@@ -208,7 +213,7 @@ def run_schedule(ctx, c):
     tf = c['tf']
     stamps = [float(t) for t in ss.dae.ts.t]
     t_end = stamps[-1] if stamps else 0.0
-    brief = dict(base=c['base'], tstep=c['tstep'], fixt=c['fixt'], tf=tf, bounds=c['bounds'],
+    brief = dict(base=c['base'], tstep=c['tstep'], fixt=c['fixt'], tf=tf, bounds=c['bounds'], opts=c.get('opts'),
                  events=[{k: r[k] for k in ('kind', 't', 'u', 'cls', 'model', 'dev', 'field') if k in r} for r in allrec])
     if raised:
         ctx.count('run:raised')
@@ -335,6 +340,13 @@ def camp_events(ctx):
                          dict(kind='timeseries', t=10.5, cls='late', u=0, sel=3, amount=0.3)])
         ctx.current_case = c
         ctx.count('anchor:late_events')
+        body(c)
+        c = dict(c, opts=dict(refresh_event=1, check_conn=1), tf=2.5, bounds=[1.2, 2.5],
+                 events=[dict(kind='toggle_line', t=0.5, cls='grid', u=1, sel=3), dict(kind='alter', t=1.3071, cls='offgrid', u=1, sel=2,
+                                                                                      target='line_b', method='*', amount=1.1),
+                         dict(kind='toggle_pq', t=2.0, cls='grid', u=1, sel=0), dict(kind='fault', t=0.8, cls='grid', u=1, sel=1, dur=0.05)])
+        ctx.current_case = c
+        ctx.count('anchor:refresh_event')
         body(c)
     drive(ctx, schedules(), body, 10 if quick else 250, name='events', chunk=10, budget_s=170 if quick else 1500)
 
